@@ -55,6 +55,10 @@ add("C12", "runtime monitoring: invariant-at-a-hook / history checker - after ev
     "All edit histories of length <=2 (thorough <=3, ~40k histories) over a fixed 34-edit alphabet and random histories up to 200 edits over {add, insert_at on compatible edges, remove_op, replace_op, unwrap_nodes, group_one_qubit_gates, remove_identity, register additions, copy, assign_noise}. After every edit: acyclic, sources/sinks are the register inputs/outputs, each wire is a single path visiting exactly the specified operations in the specified order (object identity where known), edge_dict and node_dict agree with the graph, sequence() is a topological order, depth and register_depth equal the oracle's dynamic programme, register counts only change through register additions.",
     TRUST + "register_depth (exponential-time in graphiq) is only queried on circuits with <=28 nodes.", "DESIGN.md section 5, C12")
 
+add("C18", "runtime monitoring: boundary monitors on the nine cost-metric classes (default and explicit construction) and on depth / register_depth, judged by an independent cost oracle over the harness' own operation lists",
+    "Generated circuits (solver vocabulary with >=1 emitter for all nine metrics; full alphabet for depth, per-register depth, emitter count and emitter-emitter CNOT count), with and without wrappers, identities, resets and with whole operation classes missing, are evaluated by every metric class constructed with default arguments and with an explicit penalty; each value is compared with the quantity computed from the specification, and the circuit is checked to be untouched afterwards.",
+    TRUST + "CZ / Z-measurement are not judged for the unitary / measurement counts (not determined by the documentation).", "DESIGN.md section 5, C18")
+
 NOT_YET = {
 }
 
